@@ -94,6 +94,7 @@ type Ctx struct {
 	luts     map[string][]uint64
 	lutByKey map[string]*lutEntry
 	nCanon   int
+	canonAll bool
 }
 
 func NewCtx() *Ctx {
@@ -356,6 +357,9 @@ func (c *Ctx) And(a, b *Term) *Term {
 	if a == b {
 		return a
 	}
+	if (a.op == OpNot && a.args[0] == b) || (b.op == OpNot && b.args[0] == a) {
+		return c.False
+	}
 	if a.id > b.id {
 		a, b = b, a
 	}
@@ -378,6 +382,22 @@ func (c *Ctx) Or(a, b *Term) *Term {
 	}
 	if a == b {
 		return a
+	}
+	// x ∨ ¬x ; (g ∧ x) ∨ (g ∧ ¬x) = g ; (g ∧ x) ∨ ¬x... keep to the cases produced by region guards
+	if (a.op == OpNot && a.args[0] == b) || (b.op == OpNot && b.args[0] == a) {
+		return c.True
+	}
+	if a.op == OpAnd && b.op == OpAnd {
+		for i := 0; i < 2; i++ {
+			for j := 0; j < 2; j++ {
+				if a.args[i] == b.args[j] {
+					x, y := a.args[1-i], b.args[1-j]
+					if (x.op == OpNot && x.args[0] == y) || (y.op == OpNot && y.args[0] == x) {
+						return a.args[i]
+					}
+				}
+			}
+		}
 	}
 	if a.id > b.id {
 		a, b = b, a
@@ -464,7 +484,11 @@ func (c *Ctx) Ite(cond, a, b *Term) *Term {
 			return c.And(cond, a)
 		}
 	}
-	return c.mk(&Term{op: OpIte, w: a.w, args: []*Term{cond, a, b}})
+	r := c.mk(&Term{op: OpIte, w: a.w, args: []*Term{cond, a, b}})
+	if c.canonAll && a.w > 0 {
+		return c.Canon8(r)
+	}
+	return r
 }
 
 func toSigned(v *big.Int, w int) *big.Int {
@@ -690,6 +714,20 @@ func (c *Ctx) Bin(op Op, a, b *Term) *Term {
 			}
 			return c.BV(0, a.w)
 		}
+		// canonical form of a wide xor: concatenation of byte-wise xors (byte-oriented crypto glue
+		// builds the same value either way; this makes the two syntactically equal)
+		if op == OpBvXor && a.w > 8 && a.w%8 == 0 && a.w <= 4096 {
+			var res *Term
+			for hi := a.w - 1; hi >= 7; hi -= 8 {
+				x := c.Bin(OpBvXor, c.Extract(a, hi, hi-7), c.Extract(b, hi, hi-7))
+				if res == nil {
+					res = x
+				} else {
+					res = c.Concat(res, x)
+				}
+			}
+			return res
+		}
 	case OpShl, OpLShr, OpAShr:
 		if isZero(b) {
 			return a
@@ -778,7 +816,18 @@ func (c *Ctx) Bin(op Op, a, b *Term) *Term {
 			return r
 		}
 	}
-	return c.mk(&Term{op: op, w: rw, args: []*Term{a, b}})
+	switch op {
+	case OpAdd, OpMul, OpBvAnd, OpBvOr, OpBvXor:
+		// commutative: constants to the right, otherwise ordered by id
+		if a.IsConst() || (!b.IsConst() && a.id > b.id) {
+			a, b = b, a
+		}
+	}
+	r := c.mk(&Term{op: op, w: rw, args: []*Term{a, b}})
+	if c.canonAll && rw > 0 {
+		return c.Canon8(r)
+	}
+	return r
 }
 
 // signedZextCmp: signed comparison where both sides are provably non-negative small values
